@@ -414,6 +414,16 @@ func checkC20(c *Ctx) {
 			c.undecided("T-SIBLING(NewClient)", "client:makeResourceListFn/returned-closure", c.P.fnPos(mk), "makeResourceListFn does not build and return exactly one closure")
 		}
 	}
+	// The adapters' comma-ok assertions drop anything that is not the package's kind: a typed
+	// view equals the untyped one only if the core hands over the very objects it was given
+	// (event and list columns of the cache tables: the emitted object is the row's object,
+	// never a re-typed or wrapped stand-in).
+	m := newCacheModel(c)
+	m.checkDoUpdate()
+	m.checkDoSync()
+	m.checkDoRefilter()
+	m.checkHelpers()
+	m.checkDoList()
 	c.floor("T-INSTANCE(typed)", 13, "12 typed packages")
 	c.floor("T-INSTANCE(join)", 9, "8 generated joins")
 	c.floor("T-SIBLING(NewClient)", 15, "12 clients + ForResource + 2 closures")
